@@ -161,6 +161,7 @@ Record config := {
   hostport_ok : str -> bool;          (* helpers.ValidateHostPort(s, false) *)
   listen_ok : str -> bool;            (* helpers.ValidateHostPort(s, true) *)
   zkpath_ok : str -> bool;            (* helpers.ValidateZookeeperPath(s) *)
+  zkroot_trivial : str -> bool;       (* s == "/": createRecursive has nothing to create (zookeeper/coordinator.go:119-121) *)
   zkcons_ok : str -> bool;            (* helpers.ValidateZookeeperPath(s + "/consumers") *)
   kversion_ok : str -> bool;          (* parseKafkaVersion(s) returns *)
   mail_ok : str -> Z -> bool;         (* ValidateHostList([server:port]) *)
@@ -471,12 +472,18 @@ Definition zookeeper_tls_ok (c : config) : bool :=
       (is_empty (tp_cert p) || is_empty (tp_key p) || keypair_ok c (tp_cert p) (tp_key p))
   end.
 
+(* zookeeper/coordinator.go:92-96,118-139 createRecursive(zookeeper.root-path): for "/" it returns at once; for every other
+   path it asks the ensemble (Exists / Create), and with no server reachable the request is answered with an error
+   ("zk: could not connect to a server"), which Start returns.  The default root path is "/burrow". *)
+Definition zookeeper_root_ok (c : config) : bool :=
+  match cfg_zk_root c with Some p => zkroot_trivial c p | None => false end || reachable c (cfg_zk_servers c).
+
 (* Start of one coordinator: true = it returned nil.  In the model the Kafka clients fail on unreachable brokers
-   (sarama.NewClient) and the zookeeper coordinator on unusable TLS files; plain zookeeper connections are asynchronous,
-   and the OS is assumed to grant the listeners. *)
+   (sarama.NewClient), and the zookeeper coordinator on unusable TLS files or when it has to create its root path on an
+   unreachable ensemble; the connection itself is set up asynchronously, and the OS is assumed to grant the listeners. *)
 Definition start_coord (o : order) (c : config) (k : coord) : bool :=
   match k with
-  | CZookeeper => zookeeper_tls_ok c
+  | CZookeeper => zookeeper_tls_ok c && zookeeper_root_ok c
   | CCluster => forallb (fun m => reachable c (cl_servers m)) (ord_cluster o)
   | CConsumer => forallb (fun m => reachable c (cn_servers m)) (ord_consumer o)
   | _ => true
